@@ -103,3 +103,4 @@ EXPLANATION = ("Leaf formulas (residuals, posterior precisions, U'S^-1U products
 TRUSTED = ["L-BCA: exact maximisation of one block of a strictly concave quadratic never decreases it, and cyclic block maximisation converges to its unique maximiser",
            "np.linalg.inv contract; compound axis C*D is row-major (reshape/flatten/np.repeat semantics of the NumPy model)"]
 ASSUMPTIONS = ["UBM variances > 0"]
+XCHECK = ['fa']
